@@ -236,3 +236,21 @@ pub fn run_sec(flags: u64, pkts: &[Vec<u8>]) -> Vec<u64> {
     }
     out
 }
+
+/// a PES packet filter driven directly with 188-byte packets (mirrors run_pesf)
+pub fn run_pesf(flags: u64, pkts: &[Vec<u8>]) -> Vec<u64> {
+    let all: Vec<u8> = pkts.concat();
+    set_base(&all);
+    take_log();
+    let deep = flags & 1 != 0;
+    let mut ctx = Ctx::new(deep, Scripts::new());
+    ctx.serial = 1;
+    let mut f = PesWrap { serial: 0, inner: pes::PesPacketFilter::new(EsRec { serial: 0, deep }) };
+    for i in 0..pkts.len() {
+        let pk = Packet::new(&all[i * 188..(i + 1) * 188]);
+        f.consume(&mut ctx, &pk);
+    }
+    let r = take_log();
+    set_base(&[]);
+    r
+}
